@@ -448,6 +448,38 @@ def line_predicate_differential(ck, tier):
         if (o.strip() == "1") != want:
             ck.disagree("iosxeP (Lean line predicate) vs the IOS-XE class pattern in CPython re", {"line": ln.decode("latin1")}, f"model={o.strip()} re={want}")
     ck.extra["line_predicate_accepting_lines"] = n_true
+    # the same for IOS-XR (`iosxrP`, ScrapliProps/C01PlatformXR.lean): `\s?` after the `#`, `config` in any case, bounds {1,63} / {0,32}
+    cx = re.compile(C.IOSXRDriver(host="h").comms_prompt_pattern.encode(), re.M | re.I)
+    alpha_x = b"abzAZ09_.-@/:+>#()configCONFIG \t\r\x0b\x0c!"
+    base_x = [b"RP/0/RP0/CPU0:ios#", b"RP/0/RP0/CPU0:ios# ", b"xr-1(config)#", b"xr-1(config-if)# ", b"xr(CONFIG-bgp)#", b"xr(confi)#", b"xr(config" + b"m" * 32 + b")#",
+              b"xr(config" + b"m" * 33 + b")#", b"a" * 63 + b"#", b"a" * 64 + b"#", b"#", b"# ", b"xr#  ", b"xr#\t", b"xr#\x0c", b"xr>", b"xr(config)>", b"xr(cfg)#",
+              b"x(y)(config)#", b"xr(config+)#", b"xr(config)##", b"xr# #", b"(config)#", b""]
+    lines_x = list(base_x)
+    for _ in range(1500 if tier == "quick" else 20000):
+        ln = bytearray(rng.choice(base_x))
+        for _ in range(rng.randint(0, 3)):
+            k = rng.random()
+            if k < 0.4 and ln:
+                ln[rng.randrange(len(ln))] = rng.choice(alpha_x)
+            elif k < 0.7:
+                ln.insert(rng.randint(0, len(ln)), rng.choice(alpha_x))
+            elif ln:
+                del ln[rng.randrange(len(ln))]
+        if b"\n" not in ln:
+            lines_x.append(bytes(ln))
+    try:
+        outs = run_model("C01", [f"linep iosxr {hexs(ln)}" for ln in lines_x], native=True)
+    except Exception as e:
+        ck.proof_broken("model driver Drv/C01.lean (linep iosxr)", repr(e))
+        return
+    n_true = 0
+    for ln, o in zip(lines_x, outs):
+        want = cx.search(ln) is not None
+        n_true += want
+        ck.extra["line_predicate_checks_iosxr"] = ck.extra.get("line_predicate_checks_iosxr", 0) + 1
+        if (o.strip() == "1") != want:
+            ck.disagree("iosxrP (Lean line predicate) vs the IOS-XR class pattern in CPython re", {"line": ln.decode("latin1")}, f"model={o.strip()} re={want}")
+    ck.extra["line_predicate_accepting_lines_iosxr"] = n_true
 
 
 def run(tier, seed):
